@@ -1376,3 +1376,183 @@ Proof.
     destruct (K _ _ Lk) as [[-> E]|[[-> E]|[[_ E]|[_ E]]]]; try discriminate; inversion E; subst; simpl in R; inversion R; subst; simpl in L; discriminate.
   - intros k e L. destruct (K _ _ L) as [[-> _]|[[-> _]|[[-> _]|[-> _]]]]; simpl; auto.
 Qed.
+
+(* =========================================================================================
+   Where d_recomp comes from: the identity the repair command recomputes from params.json
+   (model/Deprecate.v `recompute`: the loader of model/Serial.v, then the identifier of
+   model/Hash.v, with the classes as they are now).                                        *)
+From Coq Require Import NArith.
+From XV Require Import core.Value model.Hash model.Edits model.Seal model.Serial
+  proofs.Hash_lemmas proofs.Neutral_lemmas proofs.Serial_lemmas proofs.Walk_reach_lemmas.
+Close Scope Z_scope.
+
+(* two class tables with the same declared arguments class by class (the type identifiers may differ:
+   this is what @deprecate changes)                                                                *)
+Definition same_args (cs cs' : classes) : Prop :=
+  forall k, option_map c_args (nth_error cs k) = option_map c_args (nth_error cs' k).
+
+Lemma def_of_same_args cs cs' fm h n : same_args cs cs' -> def_of cs fm h n = def_of cs' fm h n.
+Proof.
+  intros S. unfold def_of. destruct (nth_error h n) as [x|]; [|reflexivity].
+  specialize (S (n_cls x)).
+  destruct (nth_error cs (n_cls x)) as [c|], (nth_error cs' (n_cls x)) as [c'|]; cbn in S; try discriminate; [|reflexivity].
+  inversion S as [E]. unfold xpmvalues. rewrite E. reflexivity.
+Qed.
+
+Lemma fold_left_ext2 {A S} (f g : S -> A -> S) (l : list A) :
+  (forall s a, f s a = g s a) -> forall s, fold_left f l s = fold_left g l s.
+Proof. intros E. induction l as [|a l IH]; intros s; cbn [fold_left]; [reflexivity|]. rewrite E. apply IH. Qed.
+
+(* what is written to params.json does not mention the type identifier: the file written before the
+   class was deprecated is the file that would be written now                                       *)
+Lemma collect_same_args cs cs' fm h : same_args cs cs' ->
+  forall fuel i st, collect cs fm h fuel i st = collect cs' fm h fuel i st.
+Proof.
+  intros S. induction fuel as [|f IH]; intros i st; cbn [collect]; [reflexivity|].
+  destruct i as [v|n].
+  - destruct v; try reflexivity.
+    + apply fold_left_ext2. intros; apply IH.
+    + apply fold_left_ext2. intros; apply IH.
+    + apply IH.
+  - destruct (mem n (snd st)); [reflexivity|]. rewrite (def_of_same_args cs cs' fm h n S).
+    destruct (nth_error h n) as [x|]; [|reflexivity]. destruct (def_of cs' fm h n) as [d|]; [|reflexivity].
+    assert (E1 : forall (l : list (bytes * value)) s,
+               fold_left (fun st kv => collect cs fm h f (IVal (snd kv)) st) l s
+               = fold_left (fun st kv => collect cs' fm h f (IVal (snd kv)) st) l s)
+      by (intros; apply fold_left_ext2; intros; apply IH).
+    assert (E2 : forall (l : list nat) s,
+               fold_left (fun st p => collect cs fm h f (INode p) st) l s
+               = fold_left (fun st p => collect cs' fm h f (INode p) st) l s)
+      by (intros; apply fold_left_ext2; intros; apply IH).
+    cbv zeta. rewrite !E2, E1. destruct (n_task x); [rewrite IH|]; reflexivity.
+Qed.
+
+Lemma save_same_args cs cs' fm h fuel r : same_args cs cs' -> save cs fm h fuel r = save cs' fm h fuel r.
+Proof. intros S. unfold save. rewrite (collect_same_args cs cs' fm h S). reflexivity. Qed.
+
+(* the definitions of a saved graph always load (their class is known) *)
+Lemma load_into_saved cs h : forall ds g,
+  (forall d, In d ds -> def_of cs true h (d_id d) = Some d) -> exists g', load_into cs true true g ds = Some g'.
+Proof.
+  induction ds as [|d ds IH]; intros g Hd; cbn [load_into]; [eexists; reflexivity|].
+  pose proof (Hd d (or_introl eq_refl)) as Ed. unfold def_of in Ed.
+  destruct (nth_error h (d_id d)) as [x|]; [|discriminate].
+  destruct (nth_error cs (n_cls x)) as [c|] eqn:Ec; [|discriminate].
+  assert (Ecl : d_cls d = n_cls x) by (inversion Ed; reflexivity).
+  unfold load_node. rewrite Ecl, Ec. apply IH. intros d' Hd'. apply Hd. right. exact Hd'.
+Qed.
+
+(* THE RECOMPUTED IDENTITY.  A graph h was submitted (root r) when the classes were cs0; its params.json holds
+   `save cs0 true h fuel r`.  The classes are now cs: same declared arguments, other type identifiers
+   (deprecated classes carry the identifier of their replacement).  Whatever the graph holds - meta flags of
+   the three kinds at any position, shared and cyclic configurations, pre-tasks, init tasks - the path the repair
+   command computes from the file is (type identifier of the root's class now, full identifier of h under
+   the classes of now): what a submit of the same graph answers today.                                    *)
+Theorem recompute_is_identity H cs0 cs h fuel r f x c d :
+  same_args cs0 cs ->
+  wf_heap h -> fields_nodup h -> (forall c, In c cs -> NoDup (map a_name (c_args c))) ->
+  (forall n, complete_at cs h n) ->
+  resolves (save cs0 true h fuel r) = true ->
+  nth_error h r = Some x -> nth_error cs (n_cls x) = Some c ->
+  full_pure H cs h f r = Ok d ->
+  recompute H cs true f h (save cs0 true h fuel r) r = Some (c_tid c, d).
+Proof.
+  intros S W N Hc Comp Res Ex Ec E.
+  rewrite (save_same_args cs0 cs true h fuel r S) in *.
+  destruct (load_into_saved cs h (save cs true h fuel r) h (save_defs_ok cs h fuel r)) as [h' L].
+  assert (R : reload cs true true h fuel r = Some h') by (unfold reload; rewrite Res; exact L).
+  destruct (reload_ident cs H h fuel r h' (fun _ => None)) as [[_ Eq] _]; [intros d0 _; apply Comp|exact R|].
+  pose proof (reload_full_ident cs H h fuel r h' W N Hc Comp R f r d (nth_error_lt h r x Ex) E) as E'.
+  unfold recompute, loaded. rewrite Res, L.
+  specialize (Eq r). rewrite Ex in Eq. destruct (nth_error h' r) as [y|]; [|contradiction].
+  destruct Eq as [Ecl _]. rewrite <- Ecl, Ec, E'. reflexivity.
+Qed.
+
+(* ... and a graph written with the replacement class has that identity: the FULL identifier (the name of
+   the job directory) of every node is unchanged when a node moves to a class with the same type identifier
+   and the same arguments (the raw-identifier statement is reclass_neutral)                              *)
+Theorem reclass_full H cs h n x c c' k' :
+  wf_heap h -> nth_error h n = Some x -> nth_error cs (n_cls x) = Some c -> nth_error cs k' = Some c' ->
+  same_sig_class c c' ->
+  forall fuel m d, m < length h ->
+    full_pure H cs h fuel m = Ok d -> full_pure H cs (upd_nth h n (with_cls x k')) fuel m = Ok d.
+Proof.
+  intros W Ex Ec Ec' Sg fuel m d Lm E.
+  apply (full_pure_same_succs H cs cs h (upd_nth h n (with_cls x k')) fuel m d W); try assumption.
+  - split; [symmetry; apply upd_nth_length_eq|]. intros k. destruct (Nat.eq_dec n k) as [<-|D].
+    + rewrite nth_upd_same by (apply nth_error_Some; congruence). rewrite Ex.
+      split; [intros q; reflexivity|split; reflexivity].
+    + rewrite nth_upd_other by exact D. destruct (nth_error h k); [|exact I]. split; [tauto|split; reflexivity].
+  - intros k. unfold raw_pure. rewrite (reclass_neutral H cs h (fun _ => None) n x c c' k' Ex Ec Ec' Sg fuel k). reflexivity.
+Qed.
+
+(* ---- a concrete instance: Aux(x), NewTask(n, aux: Meta[Optional[Aux]] = None), OldTask(NewTask) deprecated;
+   the stored job is OldTask(n=1, aux=setmeta(Aux(x=3), False))                                            *)
+Definition rx_arg (nm : bytes) (ign req : bool) : argdecl :=
+  {| a_name := nm; a_ignored := ign; a_gen := false; a_const := false; a_required := req; a_default := None |}.
+Definition rx_aux : class := {| c_tid := [97]%N; c_args := [rx_arg [120]%N false true] |}.
+Definition rx_task (tid : bytes) : class :=
+  {| c_tid := tid; c_args := [rx_arg [110]%N false true; rx_arg [97]%N true false] |}.
+Definition rx_before : classes := [rx_aux; rx_task [116]%N; rx_task [111]%N].   (* the old class has its own type identifier *)
+Definition rx_now : classes := [rx_aux; rx_task [116]%N; rx_task [116]%N].      (* @deprecate: the identifier of the parent *)
+(* the hash function of the instance: the identity (the byte stream itself; what distinguishes two streams
+   distinguishes their digests under any injective hash).  SHA-256 is used in the correspondence run.      *)
+Definition rx_H : bytes -> bytes := fun b => b.
+Definition rx_old_task : node :=
+  {| n_cls := 2; n_fields := [([110]%N, VInt 1); ([97]%N, VRef 0)]; n_meta := None; n_task := None; n_pre := []; n_init := [] |}.
+Definition rx_heap : heap :=
+  [ {| n_cls := 0; n_fields := [([120]%N, VInt 3)]; n_meta := Some false; n_task := None; n_pre := []; n_init := [] |};
+    rx_old_task ].
+
+(* the record of a family of defects: a loader that restores the meta flag only when it is truthy loses the
+   explicit False; the member is no longer counted and another identity is recomputed            *)
+Lemma recompute_truthy_refuted :
+  exists a b, recompute rx_H rx_now true 20 rx_heap (save rx_before true rx_heap 20 1) 1 = Some a /\
+              recompute rx_H rx_now false 20 rx_heap (save rx_before true rx_heap 20 1) 1 = Some b /\
+              snd a <> snd b.
+Proof.
+  eexists. eexists. split; [vm_compute; reflexivity|]. split; [vm_compute; reflexivity|].
+  cbn [snd]. intros E. discriminate E.
+Qed.
+
+(* the hypotheses of recompute_is_identity and reclass_full are satisfiable by that instance; the identity
+   under the classes of now is the one of the graph written with the replacement class, and is not the one the
+   job was stored under                                                                                       *)
+Example recompute_hyps_sat :
+  same_args rx_before rx_now /\ wf_heap rx_heap /\ fields_nodup rx_heap /\
+  (forall c, In c rx_now -> NoDup (map a_name (c_args c))) /\ (forall n, complete_at rx_now rx_heap n) /\
+  resolves (save rx_before true rx_heap 20 1) = true /\
+  same_sig_class (rx_task [116]%N) (rx_task [116]%N) /\
+  exists d, full_pure rx_H rx_now rx_heap 20 1 = Ok d /\
+            full_pure rx_H rx_now (upd_nth rx_heap 1 (with_cls rx_old_task 1)) 20 1 = Ok d /\
+            full_pure rx_H rx_before rx_heap 20 1 <> Ok d.
+Proof.
+  assert (ND1 : NoDup (map a_name (c_args rx_aux))) by (cbn; repeat constructor; cbn; intuition discriminate).
+  assert (ND2 : forall t, NoDup (map a_name (c_args (rx_task t)))) by (intros t; cbn; repeat constructor; cbn; intuition discriminate).
+  split; [intros [|[|[|k]]]; try reflexivity; destruct k; reflexivity|].
+  split.
+  { intros n x Ex m Hm. destruct n as [|[|n]]; cbn in Ex.
+    - inversion Ex; subst; cbn in Hm; contradiction.
+    - inversion Ex; subst; cbn in Hm. destruct Hm as [<-|[]]. cbn. lia.
+    - destruct n; discriminate. }
+  split.
+  { intros n x Ex. destruct n as [|[|n]]; cbn in Ex; [| |destruct n; discriminate]; inversion Ex; subst; cbn;
+      repeat constructor; cbn; intuition discriminate. }
+  split.
+  { intros c Hc. cbn in Hc. destruct Hc as [<-|[<-|[<-|[]]]]; [exact ND1|apply ND2|apply ND2]. }
+  split.
+  { intros n x c Ex Ec. destruct n as [|[|n]]; cbn in Ex; [| |destruct n; discriminate]; inversion Ex; subst; cbn in Ec; inversion Ec; subst.
+    - split; [exact ND1|]. split.
+      + intros k v [Hk|[]]. inversion Hk; subst. exists (rx_arg [120]%N false true). split; [left; reflexivity|reflexivity].
+      + split; [cbn; repeat constructor; cbn; intuition discriminate|].
+        intros a [<-|[]] [Hd|Hr]; cbn in *; [congruence|discriminate].
+    - split; [apply ND2|]. split.
+      + intros k v [Hk|[Hk|[]]]; inversion Hk; subst;
+          [exists (rx_arg [110]%N false true)|exists (rx_arg [97]%N true false)]; (split; [cbn; tauto|reflexivity]).
+      + split; [cbn; repeat constructor; cbn; intuition discriminate|].
+        intros a [<-|[<-|[]]] _; cbn; discriminate. }
+  split; [vm_compute; reflexivity|].
+  split; [split; [reflexivity|split; [apply Permutation_refl|apply ND2]]|].
+  eexists. split; [vm_compute; reflexivity|]. split; [vm_compute; reflexivity|].
+  vm_compute. intros E. discriminate E.
+Qed.
